@@ -368,7 +368,16 @@ def data_remove_parent(ctx, prog):
 
 data_remove_parent.rule_id = "C12.DATA-remove-parent"
 
-RULES = [tyg_strong, pdom_breaker, unlink_queued, tyg_captures, guard_sentinel, data_remove_parent]
+def data_preserve_cutoff(ctx, prog):
+    """The cutoff closure installed by depend_on lives in the output node: it must hold that node weakly (a strong
+    Incr makes the node own itself and leaks everything upstream). Same rule as C06.DATA-preserve-cutoff."""
+    from .c06 import preserve_cutoff as f
+    f(ctx, prog, "C12.DATA-preserve-cutoff")
+
+
+data_preserve_cutoff.rule_id = "C12.DATA-preserve-cutoff"
+
+RULES = [tyg_strong, pdom_breaker, unlink_queued, tyg_captures, guard_sentinel, data_remove_parent, data_preserve_cutoff]
 
 # control signature of the bookkeeping effects this property depends on (rules/ctrlsig.py)
 from .ctrlsig import make_rule as _ctrl_rule  # noqa: E402
